@@ -839,7 +839,12 @@ class HexaryTrie:
             )
             yield memory_trie
 
-        if self.root_hash != memory_trie.root_hash:
+        if self.is_pruning:
+            # The batch trie shares this trie's reference counts, so it has already
+            # stored and counted the new root node. Saving it again here would
+            # count it twice, and it could never be pruned.
+            self.root_hash = memory_trie.root_hash
+        elif self.root_hash != memory_trie.root_hash:
             try:
                 raw_root_node = memory_trie.get_node(memory_trie.root_hash)
             except KeyError:
